@@ -1244,3 +1244,129 @@ Qed.
 Lemma visible_thm (c : case) : wf (c_graph c) -> forall p,
   visible_at c p = true <-> exists h, In h (c_heads c) /\ anc (c_graph c) p h.
 Proof. intros W p. unfold visible_at. now apply anc_any_spec. Qed.
+
+(** * meaning of every clause of [query_ok] *)
+Lemma set_has_spec k l : set_has k l = true <-> In k l.
+Proof. unfold set_has. apply is_name_spec. Qed.
+
+Definition res2_holds (pfx : id) (keys all : list id) (r : res) (positions : id -> list nat) : Prop :=
+  match pfx with
+  | [] => r = RAmb
+  | _ =>
+    (* no id of the set matches: decided by the repo *)
+    ((forall x, In x keys -> matches pfx x = false) /\ res_holds pfx all r positions) \/
+    (* all matching ids of the set are one id k: k, if the repo has it *)
+    (exists k, In k keys /\ matches pfx k = true /\
+               (forall x, In x keys -> matches pfx x = true -> x = k) /\
+               ((r = ROne k (positions k) /\ In k all) \/ (r = RNo /\ ~ In k all))) \/
+    (* two different ids of the set match *)
+    ((exists x y, In x keys /\ In y keys /\ x <> y /\ matches pfx x = true /\ matches pfx y = true)
+     /\ r = RAmb)
+  end.
+
+Lemma res2_spec_sound pfx keys all r positions :
+  res2_spec pfx keys all r positions = true -> res2_holds pfx keys all r positions.
+Proof.
+  unfold res2_spec, res2_holds, count_matching. destruct pfx as [|d p].
+  - destruct r; try discriminate. reflexivity.
+  - set (pfx := d :: p). destruct (filter (matches pfx) keys) as [|k rest] eqn:F.
+    + intros H. left. split; [|now apply res_spec_sound].
+      intros x Hx. destruct (matches pfx x) eqn:E; [|reflexivity].
+      assert (X : In x (filter (matches pfx) keys)) by (apply filter_In; now split).
+      rewrite F in X. contradiction.
+    + assert (Hk : In k keys /\ matches pfx k = true) by (apply filter_In; rewrite F; now left).
+      destruct (forallb (id_eqb k) rest) eqn:A.
+      * intros H. right. left. exists k. split; [apply Hk|]. split; [apply Hk|]. split.
+        -- intros x Hx Hm. assert (X : In x (k :: rest)) by (rewrite <- F; apply filter_In; now split).
+           destruct X as [<-|X]; [reflexivity|]. rewrite forallb_forall in A. symmetry.
+           now apply id_eqb_spec, A.
+        -- destruct r as [| |k' ps]; [|discriminate|].
+           ++ right. split; [reflexivity|]. apply negb_true_iff in H. intros C.
+              apply set_has_spec in C. congruence.
+           ++ rewrite !andb_true_iff, id_eqb_spec, lnat_eqb_eq, set_has_spec in H.
+              destruct H as [[<- ->] H]. now left.
+      * intros H. right. right. split; [|destruct r; try discriminate; reflexivity].
+        assert (E : exists y, In y rest /\ y <> k).
+        { clear - A. induction rest as [|y rest IH]; simpl in A; [discriminate|].
+          apply andb_false_iff in A. destruct A as [A|A].
+          - exists y. split; [now left|]. apply id_eqb_false in A. congruence.
+          - destruct (IH A) as (z & Hz & N). exists z. split; [now right|assumption]. }
+        destruct E as (y & Hy & N).
+        assert (Hy' : In y keys /\ matches pfx y = true) by (apply filter_In; rewrite F; now right).
+        exists k, y. repeat split; try tauto. congruence.
+Qed.
+
+Lemma bools_eqb_spec l1 l2 : list_eqb Bool.eqb l1 l2 = true -> l1 = l2.
+Proof.
+  revert l2. induction l1 as [|a l IH]; intros [|b l2]; simpl; try discriminate; [reflexivity|].
+  rewrite andb_true_iff. intros [E H]. apply eqb_prop in E. subst. f_equal. now apply IH.
+Qed.
+
+Section QueryMeaning.
+  Variable c : case.
+  Notation ac := (all_commits_of c).
+  Notation ah := (all_changes_of c).
+
+  Definition query_holds (q : query) : Prop :=
+    match q with
+    | QShortCommit k len => short_holds k len ac
+    | QResCommit pfx r => res_holds pfx ac r (fun _ => [])
+    | QShortChange k len => short_holds k len ah
+    | QResChange pfx r vis =>
+        res_holds pfx ah r (change_positions c) /\
+        match r with
+        | ROne _ ps => vis = map (visible_at c) ps
+        | _ => vis = []
+        end
+    | QShortCommit2 k len =>
+        match c_dis c with
+        | Some keys => if set_has k keys then refs_short_holds k len [] keys 1 else short_holds k len ac
+        | None => short_holds k len ac
+        end
+    | QResCommit2 pfx r =>
+        match c_dis c with
+        | Some keys => res2_holds pfx keys ac r (fun _ => [])
+        | None => res_holds pfx ac r (fun _ => [])
+        end
+    | QShortChange2 k len =>
+        match c_dis_changes c with
+        | Some keys => if set_has k keys then refs_short_holds k len [] keys 1 else short_holds k len ah
+        | None => short_holds k len ah
+        end
+    | QResChange2 pfx r =>
+        match c_dis_changes c with
+        | Some keys => res2_holds pfx keys ah r (change_positions c)
+        | None => res_holds pfx ah r (change_positions c)
+        end
+    | QRefsLen k _ len =>
+        match c_dis c with
+        | Some keys => if set_has k keys then refs_short_holds k len (c_names c) keys 1
+                       else refs_short_holds k len (c_names c) ac 0
+        | None => refs_short_holds k len (c_names c) ac 0
+        end
+    | QRefsLenChange k len =>
+        match c_dis_changes c with
+        | Some keys => if set_has k keys then refs_short_holds k len (c_change_names c) keys 1
+                       else refs_short_holds k len (c_change_names c) ah 0
+        | None => refs_short_holds k len (c_change_names c) ah 0
+        end
+    end.
+
+  Lemma query_ok_sound q : query_ok c ac ah q = true -> query_holds q.
+  Proof.
+    destruct q as [k len|pfx r|k len|pfx r vis|k len|pfx r|k m len|k len|k len|pfx r]; simpl.
+    - apply short_ok_sound.
+    - apply res_spec_sound.
+    - apply short_ok_sound.
+    - rewrite andb_true_iff. intros [H1 H2]. split; [now apply res_spec_sound|].
+      destruct r; try (destruct vis; [reflexivity|discriminate]). now apply bools_eqb_spec.
+    - destruct (c_dis c) as [keys|]; [destruct (set_has k keys)|];
+        [apply refs_short_ok_sound|apply short_ok_sound|apply short_ok_sound].
+    - destruct (c_dis c) as [keys|]; [apply res2_spec_sound|apply res_spec_sound].
+    - destruct (c_dis c) as [keys|]; [destruct (set_has k keys)|]; apply refs_short_ok_sound.
+    - destruct (c_dis_changes c) as [keys|]; [destruct (set_has k keys)|]; apply refs_short_ok_sound.
+    - destruct (c_dis_changes c) as [keys|]; [destruct (set_has k keys)|];
+        [apply refs_short_ok_sound|apply short_ok_sound|apply short_ok_sound].
+    - destruct (c_dis_changes c) as [keys|]; [apply res2_spec_sound|apply res_spec_sound].
+  Qed.
+End QueryMeaning.
